@@ -345,7 +345,8 @@ Definition mstep (s : mstate) (kind : string) (a : list N) (data : list N) (rl :
                         | None => None
                         end in
               (0, put {| mr_size := mr_size r; mr_next_avail := mr_next_avail r; mr_next_used := nu; mr_addrs := addrs; mr_call := mr_call r |})
-          | _, _, _ => (13, s)                                    (* an address no current region contains was accepted *)
+          | _, _, _ => (134, s)       (* an address no current region contains was accepted: not a translation through the
+                                         accepted table (C13), and the ring does not get the translated addresses (C14) *)
           end
         else (0, put {| mr_size := mr_size r; mr_next_avail := mr_next_avail r; mr_next_used := mr_next_used r;
                         mr_addrs := None; mr_call := mr_call r |})
